@@ -349,7 +349,9 @@ func (m *Mux) serveHTTP(w http.ResponseWriter, r *http.Request) error {
 	if err != nil {
 		return err
 	}
-	params = append(params, queryParams...)
+	// Path variables are applied last so that a query parameter can never
+	// replace a value captured from the URL path.
+	params = append(queryParams, params...)
 
 	hd, err := s.pickMethodHandler(method.name)
 	if err != nil {
